@@ -79,6 +79,7 @@ def gbFeatStr (f : Feat) : String :=
 
 def gbDump : Res → String
   | .panic => "!panic"
+  | .error => "!error"
   | .ok r =>
     "ok|O:" ++ (match r.origin with | none => "-" | some o => hex o) ++ "|F:" ++
       (match r.features with
@@ -192,6 +193,7 @@ def runGbText (c : Case) : Verdict :=
     if c.get "kind" == "quirk" then "ok" else
     match res with
     | .panic => if c.has "gbrows" then "fail:reader-panics-on-a-legal-record" else "ok"
+    | .error => if c.has "gbrows" then "fail:written-record-rejected" else "ok"
     | .ok r =>
       if !gbParserLands (r.features.getD []) then "fail:parseLocation-and-getPositions-differ"
       else if c.get "kind" == "thm" && gbThmCheck c text res != "ok" then gbThmCheck c text res
